@@ -3,6 +3,7 @@
 import collections
 import gettext
 import io
+import re
 import textwrap
 
 from wpull.collections import OrderedDefaultDict
@@ -44,7 +45,7 @@ class NameValueRecord(collections.MutableMapping):
         else:
             self.raw += string
 
-        lines = unfold_lines(string).splitlines()
+        lines = split_lines(unfold_lines(string))
         for line in lines:
             if line:
                 if ':' not in line:
@@ -166,6 +167,21 @@ def guess_line_ending(string):
         return '\n'
 
 
+def split_lines(string):
+    '''Split the string at CRLF, CR and LF.
+
+    ``str.splitlines`` is not used because it also splits at VT, FF, FS,
+    GS, RS and NEL (the Latin-1 octet 0x85), which are part of the field
+    value.
+    '''
+    lines = re.split(r'\r\n|\r|\n', string)
+
+    if not lines[-1]:
+        del lines[-1]
+
+    return lines
+
+
 def unfold_lines(string):
     '''Join lines that are wrapped.
 
@@ -173,7 +189,7 @@ def unfold_lines(string):
     line.
     '''
     assert isinstance(string, str), 'Expect str. Got {}'.format(type(string))
-    lines = string.splitlines()
+    lines = split_lines(string)
     line_buffer = io.StringIO()
 
     for line_number in range(len(lines)):
